@@ -50,7 +50,7 @@ def run(ctx, rep):
     rep.table('vmx', {op: {k: v for k, v in s.items() if k in ('fetch', 'pops', 'pushes', 'loops', 'class', 'err_exits')} for op, s in opt.items()})
 
     # CSA violations -> rules
-    mp = {'O1': 'R02.3', 'O2': 'R02.3', 'O3': 'R02.3', 'O4': 'R02.3', 'O1-underflow': 'R02.3', 'O5': 'R02.5', 'O6': 'R02.5', 'O7': 'R02.4',
+    mp = {'O1': 'R02.3', 'O2': 'R02.3', 'O3': 'R02.3', 'O4': 'R02.3', 'O1-underflow': 'R02.3', 'O5': 'R02.5', 'O6': 'R02.5', 'O6-operands': 'R02.3', 'O7': 'R02.4',
           'O8': 'R02.1', 'O8-scope': 'R02.6', 'R02.2': 'R02.2', 'R02.6': 'R02.6', 'R12.1': 'R02.6', 'R09.1': None}
     nv = 0
     for v in R['violations']:
